@@ -291,3 +291,78 @@ def r_sqrtdomain(idx, rep, rule="R-SQRTDOMAIN", modules=None, floor=10, unknown_
                             "library raises ValueError('math domain error') for math.sqrt, the compiled one and np.sqrt return NaN" % u(c)[:80])
                 else:
                     rep.unknown(rule, key, where, "sign of `%s` not decided (parameter / callee result)" % u(c.args[0])[:60])
+
+
+# ---------------------------------------------------------------------------------------------------------------------------------
+# R-ROUNDTRIP: a radicand that can vanish must not be fed by a value re-derived through cancellation.
+
+def _resolve(e, f, depth=0, seen=()):
+    """copy of e with every local that has exactly one plain definition in f replaced by that definition (bounded)"""
+    class Sub(ast.NodeTransformer):
+        def visit_Name(self, n):
+            if isinstance(n.ctx, ast.Load) and n.id not in f.params() and n.id not in seen and depth < 4:
+                ds = _defs(f, n.id)
+                if len(ds) == 1 and ds[0][1] is None:
+                    return _resolve(ds[0][0], f, depth + 1, seen + (n.id,))
+            return n
+    import copy
+    return Sub().visit(copy.deepcopy(e))
+
+
+def _addends(e):
+    if isinstance(e, ast.BinOp) and isinstance(e.op, ast.Add):
+        return _addends(e.left) + _addends(e.right)
+    return [e]
+
+
+def _roundtrips(e):
+    """(difference, recovered term) for every sub-expression (Y + T) - Y of an already resolved expression"""
+    out = []
+    for n in ast.walk(e):
+        if isinstance(n, ast.BinOp) and isinstance(n.op, ast.Sub):
+            adds = _addends(n.left)
+            if len(adds) >= 2:
+                r = ast.dump(n.right)
+                if any(ast.dump(a) == r for a in adds):
+                    rest = [a for a in adds if ast.dump(a) != r]
+                    out.append((n, rest))
+    return out
+
+
+def _strip_clamp(e):
+    while isinstance(e, ast.Call) and (call_name(e) or "") in ("max", "np.maximum", "abs", "np.abs", "np.fmax") and e.args:
+        args = [a for a in e.args if not isinstance(a, ast.Constant)]
+        if len(args) != 1:
+            break
+        e = args[0]
+    return e
+
+
+def r_roundtrip(idx, rep, rule="R-ROUNDTRIP", modules=None, floor=3, sqrt_calls=("np.sqrt", "math.sqrt")):
+    rep.rule(rule, "a square root whose radicand is a difference (it vanishes for axis-aligned / touching placements, where sqrt has unbounded "
+                   "slope) is not fed by a quantity re-derived through cancellation, (Y + T) - Y in place of T: the round trip carries an error of "
+                   "ulp(Y)/|T|, and sqrt turns 1e-14 into 1e-7 — a bound that is no longer attained within 1e-9*L",
+             floor=floor)
+    for f in idx.all_functions():
+        if f.module.is_test or (modules is not None and not f.module.name.startswith(tuple(modules))):
+            continue
+        k = 0
+        for c in ast.walk(f.node):
+            if not (isinstance(c, ast.Call) and call_name(c) in sqrt_calls and c.args):
+                continue
+            rad = _strip_clamp(_resolve(c.args[0], f))
+            if not (isinstance(rad, ast.BinOp) and isinstance(rad.op, ast.Sub)):
+                continue
+            k += 1
+            key = "%s|vanishing sqrt #%d" % (f.key, k)
+            where = "%s:%d" % (f.module.relpath, c.lineno)
+            rts = _roundtrips(rad)
+            if rts:
+                n, rest = rts[0]
+                rep.bad(rule, key, where,
+                        "the radicand of `%s` resolves to `%s`, which contains the round trip `%s`: `%s` is recovered as a difference of two "
+                        "roundings instead of being used directly; for a collider far from the origin the relative error ulp(position)/|%s| "
+                        "is amplified by the square root at the vanishing radicand (axis-aligned pose: bound off by ~1e-7 at position 100)"
+                        % (u(c)[:70], u(rad)[:110], u(n)[:70], " + ".join(u(a) for a in rest)[:50], " + ".join(u(a) for a in rest)[:30]))
+            else:
+                rep.ok(rule, key, where, "radicand `%s` uses its terms directly" % u(rad)[:70])
